@@ -72,6 +72,21 @@ theorem C11_refine_step {s : LSet} (h : WF s) (op : Op) (d : Dir) (c : Cursor) (
   rw [abs_eq hi', abs_eq hi]
   exact ⟨hs, ho, Nat.lt_of_lt_of_le hc hsz⟩
 
+/-- **C11_rep_toList** (the refinement the IR kernel of C01 relies on): the effect of every
+operation on the sequence is the abstract list operation (`append` = move-to-end; `insert_after` /
+`insert_before` = insert after the anchor / its predecessor, removing a present value first;
+`remove`), and it raises exactly when the abstract operation does. -/
+theorem C11_rep_toList {s : LSet} (h : WF s) (op : Op) :
+    toList (apply s op).1 = (Spec.apply ⟨toList s, .fwd, .done⟩ op).1.L ∧
+    (apply s op).2 = (Spec.apply ⟨toList s, .fwd, .done⟩ op).2 := by
+  obtain ⟨bs, hi⟩ := h
+  have hc : Cursor.done.Valid s := by simpa [Cursor.Valid, Cursor.pos] using hi.size_pos
+  obtain ⟨r1, r2, _⟩ := C11_refine_step ⟨bs, hi⟩ op .fwd .done hc
+  have e : abs s .fwd .done = ⟨toList s, .fwd, .done⟩ := by
+    simp [abs, absCur]
+  rw [e] at r1 r2
+  exact ⟨by rw [← r1]; rfl, r2⟩
+
 /-- **C11_refine_next**: one `next()` on a generator is one `Spec.step`: same element (or
 StopIteration), and the new concrete cursor abstracts to the new abstract cursor. -/
 theorem C11_refine_next {s : LSet} (h : WF s) (d : Dir) (c : Cursor) (hc : c.Valid s) :
@@ -390,11 +405,30 @@ theorem C11_spec_resume (A B : List Nat) :
     Spec.rest (A ++ B) .rev (Spec.curRemove .rev A.length (.att A.length)) = A.reverse := by
   simp [Spec.curRemove, Spec.rest]
 
--- non-vacuity: the invariant holds on a state with a tombstone (box 2 erased) and a moved value,
--- and a cursor parked on the tombstone is a `gap` cursor
+/-! ### non-vacuity of the hypotheses, and the corner the spec fixes -/
+
+-- `WF` is inhabited by every reachable state (C11_rep_history); concretely, with a tombstone:
+example : WF (apply (apply empty (.extend [7, 8, 9])).1 (.remove 8)).1 :=
+  C11_rep_step (C11_rep_step C11_rep_empty.1 _) _
+-- the executable form of the invariant on a state with a tombstone (box 2) and a moved value
 example : invOk (apply (apply (apply empty (.extend [7, 8, 9])).1 (.remove 8)).1 (.append 7)).1 = true := by
   decide
+-- `Valid`: fresh generators, and a generator parked on the tombstone (a `gap` cursor)
+example : Cursor.notStarted.Valid empty ∧ (Cursor.at 2).Valid (apply (apply empty (.extend [7, 8, 9])).1 (.remove 8)).1 := by
+  unfold Cursor.Valid; decide
 example : absCur (apply (apply empty (.extend [7, 8, 9])).1 (.remove 8)).1 .fwd (.at 2) = .gap 1 := by
   decide
+-- a node inserted exactly where the removed current node was is skipped by the generator parked
+-- there (it resumes with the node that followed the removed one), but seen by a generator parked on
+-- the live predecessor
+example :
+    rest (apply (apply (apply empty (.extend [7, 8, 9])).1 (.remove 8)).1 (.insertBefore 9 [5])).1 .fwd (.at 2) = [9] ∧
+    rest (apply (apply (apply empty (.extend [7, 8, 9])).1 (.remove 8)).1 (.insertBefore 9 [5])).1 .fwd (.at 1) = [5, 9] := by
+  decide
+-- hypotheses of the abstract lemmas
+example : ([1, 2] ++ 3 :: [4]).Nodup ∧ (Spec.ACur.gap 2).InRange ([1, 2] ++ 3 :: [4]) ∧ 5 ∉ [1, 2] ++ [4] := by
+  simp [Spec.ACur.InRange]
+example : Spec.seen .fwd 2 (.att 2) ∧ ¬ Spec.seen .fwd 2 (.gap 2) ∧ Spec.seen .rev 2 (.att 2) ∧ ¬ Spec.seen .rev 2 (.gap 2) := by
+  simp [Spec.seen]
 
 end IrVerif.LinkedSet
